@@ -146,13 +146,51 @@ class FakeCla(object):
         pass
 
 
+CL_SERVICES = {
+    # cltype: (bus name, object path, interface, tx parameters the real daemon would want)
+    'udpcl': ('org.ietf.dtn.node.udpcl', '/org/ietf/dtn/udpcl/Agent', 'org.ietf.dtn.udpcl.Agent',
+              {'address': '10.0.0.9', 'port': 4556}),
+    'btpu': ('org.ietf.dtn.node.btpu', '/org/ietf/dtn/btpu/Agent', 'org.ietf.dtn.btpu.Agent',
+             {'address': '02:00:00:00:00:09', 'local_if': 'veth0'}),
+}
+
+
+def make_cl_service(world, cltype, conn):
+    ''' Stand-in of a convergence layer daemon on the bus, reached only through the real adaptor classes of
+    bp.cla (UdpclAdaptor, BtpuAdaptor): what arrives in send_bundle_data is what left the node. '''
+    (_name, path, iface, _params) = CL_SERVICES[cltype]
+
+    class ClService(dbus.service.Object):
+
+        def __init__(self):
+            dbus.service.Object.__init__(self, conn=conn, object_path=path)
+            self.rxq = {}
+
+        @dbus.service.method(iface, in_signature='aya{sv}', out_signature='s')
+        def send_bundle_data(self, data, params):
+            world.on_clout(bytes(data), dict(params))
+            return 'x'
+
+        @dbus.service.method(iface, in_signature='s', out_signature='ay')
+        def recv_bundle_pop_data(self, bid):
+            return dbus.ByteArray(self.rxq.pop(str(bid)))
+
+        @dbus.service.signal(iface, signature='sta{sv}')
+        def recv_bundle_finished(self, bid, length, params):
+            pass
+
+    return ClService()
+
+
 class BpWorld(object):
 
     PROBE_EID = 'dtn://node/probe'
 
     def __init__(self, node_id='dtn://node/', rx_routes=(), tx_routes=(), accept=False, safe_endpoint=None,
-                 setup=None):
-        ''' rx_routes: [(prefix, action)], tx_routes: [(prefix, next_node, mtu)] (prefix match) '''
+                 setup=None, adaptors=False):
+        ''' rx_routes: [(prefix, action)], tx_routes: [(prefix, next_node, mtu[, cltype])] (prefix match).
+        adaptors: transmit routes go through the real bp.cla adaptor of their cltype ('udpcl' / 'btpu') to a
+        stand-in CL service on the bus, which may leave and re-join the bus (cl_down / cl_up). '''
         GLib.reset()
         dbus.bus.BusConnection.reset_all()
         dbus.RECORDER.clear()
@@ -163,23 +201,39 @@ class BpWorld(object):
         self.log = []
         self.rx_routes = list(rx_routes)
         self.originals = {}
+        self.rx_age = {}        # base identity -> (Bundle Age as received or None, reception time) [creation time 0]
         self.safe_endpoint = safe_endpoint
-        self.tx_routes = list(tx_routes)
+        self.adaptors = bool(adaptors)
+        self.tx_routes = [tuple(r[:3]) for r in tx_routes]
+        self.tx_cl = [(r[3] if len(r) > 3 else 'udpcl') if adaptors else 'fake' for r in tx_routes]
+        self.cl_up_now = {}
+        self.cl_svc = {}
         cfg = bp.config.Config()
         cfg.node_id = node_id
         cfg.accept_after_verify = accept
         cfg._bus_conn = dbus.bus.BusConnection('bp-bus')
         for (prefix, action) in rx_routes:
             cfg.rx_route_table.append(bp.config.RxRouteItem(eid_pattern=re.compile(re.escape(prefix)), action=action))
-        for (prefix, nxt, mtu) in tx_routes:
+        for ((prefix, nxt, mtu), cltype) in zip(self.tx_routes, self.tx_cl):
+            raw = {'next': nxt}
+            if mtu is not None or not adaptors:
+                raw['mtu'] = mtu
+            if adaptors:
+                raw.update(CL_SERVICES[cltype][3])
             cfg.tx_route_table.append(bp.config.TxRouteItem(eid_pattern=re.compile(re.escape(prefix)),
-                                                            next_nodeid=nxt, cl_type='fake', mtu=mtu,
-                                                            raw_config={'next': nxt, 'mtu': mtu}))
+                                                            next_nodeid=nxt, cl_type=cltype, mtu=mtu,
+                                                            raw_config=raw))
         if safe_endpoint:
             cfg.apps['safe'] = {'endpoint': safe_endpoint}
         self.config = cfg
         self.agent = bp.agent.Agent(cfg)
         self.agent._cl_agent['fake'] = FakeCla(self)
+        if adaptors:
+            for cltype in sorted(CL_SERVICES):
+                self.cl_svc[cltype] = make_cl_service(self, cltype, cfg.bus_conn)
+                cfg.bus_conn.request_name(CL_SERVICES[cltype][0])
+                self.cl_up_now[cltype] = True
+                self.agent.cl_attach(cltype, CL_SERVICES[cltype][0])
         self._install_probe()
         self._wrap_builtin_apps()
         self.cur_mtu = None
@@ -271,9 +325,36 @@ class BpWorld(object):
     def route_info(self, dest):
         ''' First-match evaluation inputs, computed by the harness with plain prefix matching. '''
         rx = [[bool(dest.startswith(prefix)), action] for (prefix, action) in self.rx_routes]
-        tx = [[bool(dest.startswith(prefix)), clampi(mtu) if mtu is not None else -1]
-              for (prefix, _nxt, mtu) in self.tx_routes]
+        tx = [[bool(dest.startswith(prefix)),
+               -2 if not self.cl_up_now.get(cltype, True) else (clampi(mtu) if mtu is not None else -1)]
+              for ((prefix, _nxt, mtu), cltype) in zip(self.tx_routes, self.tx_cl)]
         return rx, tx
+
+    def routable(self, eid):
+        ''' The first transmit route matching eid exists and its CL service is on the bus. '''
+        for ((prefix, _nxt, _mtu), cltype) in zip(self.tx_routes, self.tx_cl):
+            if eid.startswith(prefix):
+                return self.cl_up_now.get(cltype, True)
+        return False
+
+    def cl_down(self, cltype):
+        ''' The CL daemon leaves the bus (NameOwnerChanged with an empty new owner). '''
+        conn = self.config.bus_conn
+        name = CL_SERVICES[cltype][0]
+        self.cl_svc[cltype].remove_from_connection()
+        conn.names.discard(name)
+        self.cl_up_now[cltype] = False
+        for (sig, handler) in list(conn.daemon_subs):
+            if sig == 'NameOwnerChanged':
+                handler(name, ':1.77', '')
+        self.emit('ClState', cl=cltype, up=False)
+
+    def cl_up(self, cltype):
+        conn = self.config.bus_conn
+        self.cl_svc[cltype].add_to_connection(conn, CL_SERVICES[cltype][1])
+        self.cl_up_now[cltype] = True
+        conn.request_name(CL_SERVICES[cltype][0])
+        self.emit('ClState', cl=cltype, up=True)
 
     def on_clout(self, data, tx_params):
         rec, bun = abstract_bundle(data)
@@ -286,6 +367,10 @@ class BpWorld(object):
                 kind, val = bp7.read_block_data(b['type'], b['data']) if b['type'] != 1 else ('payload', None)
                 if kind == 'age' and p['ts_time'] != 0:
                     agedelta = clampi(val - (dtn_now_ms() - p['ts_time']))
+                elif kind == 'age':
+                    # no creation time: the only basis is the age it arrived with plus the time spent here
+                    (rx_age, rx_at) = self.rx_age.get(rec['base'], (None, dtn_now_ms()))
+                    agedelta = clampi(val - ((rx_age or 0) + dtn_now_ms() - rx_at))
             # payload slice of a fragment against the original payload the scenario knows
             base = rec['base']
             orig = self.originals.get(base)
@@ -304,7 +389,7 @@ class BpWorld(object):
         self.emit('ClOut', b=rec, mtu=clampi(mtu) if mtu is not None else -1, agedelta=agedelta, fragok=fragok, fx=fx,
                   next=str(tx_params.get('next', '')) if isinstance(tx_params, dict) else '')
 
-    def recv(self, octets, note='', sec='none', plain='', nsec=0, expect_decode_error=False):
+    def recv(self, octets, note='', sec='none', plain='', nsec=0, expect_decode_error=False, via=None):
         ''' The CLA hands a received bundle to the agent (as _cl_recv_bundle_finish does).
         sec/plain/nsec: what the generator of the bundle knows about its security blocks. '''
         rec, bun = abstract_bundle(octets)
@@ -312,14 +397,24 @@ class BpWorld(object):
         btypes = sorted(b['type'] for b in rec['blocks'])
         if bun is not None and rec['paylen'] >= 0 and rec['base'] not in self.originals and not rec['isfrag']:
             self.originals[rec['base']] = bp7.payload_of(bun)
+        if rec['ok'] and rec['base'] not in self.rx_age:
+            ages = [b['age'] for b in rec['blocks'] if b['kind'] == 'age']
+            self.rx_age[rec['base']] = (ages[0] if ages else None, dtn_now_ms())
         self.emit('Recv', b=rec, rx=rx, tx=tx, own=bool(rec['ok'] and rec['src'] == self.node_id),
                   admin=bool(rec['ok'] and rec['dest'] == self.node_id),
                   appdest=bool(rec['ok'] and self.safe_endpoint is not None and rec['dest'] == self.safe_endpoint),
                   sec=sec, plain=plain, nsec=nsec, idle0=len(GLib.SCHED.sources), btypes=btypes, note=note,
-                  rptroute=bool(rec['ok'] and any(rec['rpt'].startswith(pfx) for (pfx, _n, _m) in self.tx_routes)))
+                  rptroute=bool(rec['ok'] and self.routable(rec['rpt'])))
         try:
-            ctr = BundleContainer(Bundle(octets))
-            self.agent.recv_bundle(ctr)
+            if via is not None:
+                # through the real adaptor: the CL service announces the bundle, the adaptor pops and decodes it
+                svc = self.cl_svc[via]
+                bid = 'rx%d' % len(self.log)
+                svc.rxq[bid] = bytes(octets)
+                svc.recv_bundle_finished(bid, len(octets), dbus.Dictionary({}, signature='sv'))
+            else:
+                ctr = BundleContainer(Bundle(octets))
+                self.agent.recv_bundle(ctr)
         except Exception as err:
             # the CLA adaptor decodes before calling the agent: an undecodable input may legitimately raise there
             self.emit('Escape', where='recv', exc=type(err).__name__,
